@@ -64,6 +64,19 @@ let () =
         let stmts =
           (match kind with
            | "text" -> snd (TagGen.text_dynamic [] lit_str e b (Some keys) st0)
+           | "class" | "style" | "id" | "data" | "mark" ->
+             let (m, nm) = (match kind with
+               | "class" -> ("76", None) | "style" -> ("82,46,121", None) | "id" -> ("82,46,105", None)
+               | "data" -> ("82,46,100", Some (dec_str name)) | _ -> ("77", Some (dec_str name))) in
+             snd (TagGen.setter_dynamic [] lit_str (TagGen.setter_call lit_str (dec_str m) nm) e b (Some keys) st0)
+           | "change" ->
+             snd (TagGen.listener_dynamic [] lit_str (TagGen.setter_call lit_str (dec_str "82,46,112") (Some (dec_str name))) [] e b (Some keys) st0)
+           | "ev" | "evcatch" | "evmut" | "evcap" | "evcapcatch" ->
+             let (c, m, cp) = (match kind with
+               | "ev" -> (false, false, false) | "evcatch" -> (true, false, false) | "evmut" -> (false, true, false)
+               | "evcap" -> (false, false, true) | _ -> (true, false, true)) in
+             snd (TagGen.listener_dynamic [] lit_str (TagGen.setter_call lit_str (dec_str "82,46,118") (Some (dec_str name)))
+                    (TagGen.event_call_post c m cp) e b (Some keys) st0)
            | _ ->
              let k = if kind = "model" then TagGen.AkModel else TagGen.AkNormal in
              snd (TagGen.normal_attr_dynamic [] lit_str k (dec_str name) e b (Some keys) st0)) in
@@ -74,7 +87,7 @@ let () =
         let hoisted = Str.join [n_of_int 59] st1.ExprGen.stmts in
         let guard = ExprGen.guard_str [] false lit_str r in
         let lv = (match kind with
-                  | "text" -> []
+                  | "text" | "class" | "style" | "id" | "data" | "mark" | "change" | "ev" | "evcatch" | "evmut" | "evcap" | "evcapcatch" -> []
                   | _ -> TagGen.normal_attr_lvalue [] lit_str (if kind = "model" then TagGen.AkModel else TagGen.AkNormal) (dec_str name) r) in
         enc_str body ^ "|" ^ enc_str (TagGen.bmc_init lit_str b) ^ "|" ^ enc_str hoisted ^ "|" ^ enc_str v ^ "|" ^ enc_str guard ^ "|" ^ enc_str lv
     | _ -> "ERR args");
